@@ -15,7 +15,7 @@ if [ $rc0 -eq 0 ]; then
  (cd $wt && GOFLAGS=-mod=mod GOPROXY=off go build ./... ) || { echo "MUTANT DOES NOT BUILD"; rc0=4; }
 fi
 if [ $rc0 -eq 0 ]; then
- cd /verif; VERIF_REPO=$wt timeout 1200 /verif/bin/verif check $id "$@" 2>&1 | grep -v "^\[" | cut -c1-300 | head -8
+ cd /verif; VERIF_REPO=$wt timeout 1200 ${VERIF_BIN:-/verif/bin/verif} check $id "$@" 2>&1 | grep -v "^\[" | cut -c1-300 | head -8
  echo "exit=${PIPESTATUS[0]}"
 fi
 cd /; git -C /repo worktree remove --force $wt
